@@ -576,7 +576,10 @@ aiff_read_header (SF_PRIVATE *psf, COMM_CHUNK *comm_fmt)
 					found_chunk |= HAVE_SSND ;
 
 					if (! psf->sf.seekable)
+					{	/* The sample data cannot be sought to later, so step over the SSND offset now. */
+						psf_binheader_readf (psf, "j", (size_t) ssnd_fmt.offset) ;
 						break ;
+						} ;
 
 					/* Seek to end of SSND chunk. */
 					psf_fseek (psf, psf->dataoffset + psf->datalength, SEEK_SET) ;
